@@ -290,6 +290,7 @@ def run(ctx):
     arrivals = {}
     nstates = 0
     notes = set()
+    foreign = set()
     while work:
         b, c, lv, bv, fl = entry = work.pop()
         fl = list(fl)
@@ -333,6 +334,12 @@ def run(ctx):
                         else:
                             lv = "G"
                             notes.add("bytes of field %d are added to the length" % c)
+                    elif src and _local_of(fa, src[0]) == L:
+                        # the length grows by something that is not the reader's consumed-byte
+                        # count (e.g. the number of *unquoted output* bytes): it no longer
+                        # measures the input
+                        lv = "G"
+                        foreign.add(fa.loc(b))
                     else:
                         raise EngineError("FEATSPAN: unrecognised update of the feature length at %s" % fa.loc(b))
             elif l == B:
@@ -400,6 +407,12 @@ def run(ctx):
         raise EngineError("FEATSPAN: the feature slice is not reachable in the abstract run")
     ctx.count("FEATSPAN", "abstract states at the feature slice", len(arrivals))
     badL = sorted(k for k in arrivals if k[0] == "G")
+    ctx.ob("FEATSPAN", "length-grows-by-consumed-input-only", not foreign, fa.loc(ub),
+           "`%s` only ever grows by the consumed-byte count of read_field (plus a constant)"
+           % names.get(L, "_%d" % L) if not foreign else
+           "`%s` is increased at %s by a value that is not the number of input bytes read_field "
+           "consumed (for quoted fields the unquoted output is shorter than the input): the "
+           "feature is cut short or long" % (names.get(L, "_%d" % L), sorted(foreign)))
     badB = sorted(k for k in arrivals if k[1] != "T")
     ctx.ob("FEATSPAN", "length-counts-only-this-row's-feature-bytes", not badL, fa.loc(ub),
            "on every path to the cut, `%s` is zero or the sum of the bytes consumed for fields >= 4 "
@@ -418,3 +431,84 @@ def run(ctx):
     ctx.assume("FEATSPAN decides where the feature slice starts and which bytes its length counts; "
                "the off-by-one for the record terminator (len - 1, CRLF) is csv-core behaviour "
                "and is not decided")
+
+
+RAW_OK = ("deref", "as_slice", "as_ref", "borrow", "as_bytes", "index", "deref_mut", "as_mut_slice")
+
+
+def rawinput(ctx):
+    """RAWINPUT (C11): the bytes Lexicon::parse_csv sees are the bytes that were read. Every
+    caller hands it the buffer filled by `read_to_end` (or its own byte-slice parameter)
+    through reborrows only: no trimming, case folding, replacing or re-encoding in between (a
+    trailing space of the last feature, or a final blank cell, would change)."""
+    crate = ctx.facts("A").lib
+    E = Effects(crate)
+    n = 0
+    for p, f in sorted(crate.fns.items()):
+        if not f.body or f.krate != "vibrato":
+            continue
+        fa = E.fa(p)
+        for b, t in fa.calls():
+            if not any(strip_generics(x).endswith("Lexicon::parse_csv") for x in callee_paths(t)):
+                continue
+            n += 1
+            chain = []
+            cur = t["args"][0]
+            src = None
+            for _ in range(12):
+                o = fa.origin(cur)
+                if o[0] == "call" and sorted(_names(o[2]))[0] in ("new", "with_capacity", "default") \
+                        and "Vec" in " ".join(_paths(o[2])):
+                    # a local buffer: it may be handed out mutably to read_to_end only
+                    fills = []
+                    for cb, ct in fa.calls():
+                        for a in ct["args"]:
+                            pl = op_place(a)
+                            if pl is None or not fa.fn.locals[pl["l"]]["ty"].startswith("&mut"):
+                                continue
+                            oo = fa.origin(a)
+                            if oo[0] == "call" and oo[1] == o[1]:
+                                fills.append(sorted(_names(ct))[0])
+                    src = "the buffer filled by %s" % (sorted(set(fills)) or "?")
+                    extra = set(fills) - {"read_to_end"}
+                    if extra or not fills:
+                        chain.append("<buffer also modified by %s>" % sorted(extra))
+                    break
+                if o[0] == "call":
+                    nm = sorted(_names(o[2]))[0]
+                    chain.append(nm)
+                    if nm == "index" and len(o[2]["args"]) == 2:
+                        r = fa.origin(o[2]["args"][1])
+                        full = r[0] == "rv" and r[1]["k"] == "agg" and str(r[1].get("adt", "")).endswith("RangeFull")
+                        if not full:
+                            chain.append("<sub-range>")
+                    if not o[2]["args"]:
+                        break
+                    cur = o[2]["args"][0]
+                    continue
+                if o[0] == "arg":
+                    src = "parameter %d" % o[1]
+                elif o[0] == "place" and o[1].root[0] == "local":
+                    # a local buffer: it must be filled by read_to_end only
+                    l = o[1].root[1]
+                    fills = []
+                    for cb, ct in fa.calls():
+                        for a in ct["args"]:
+                            pl = op_place(a)
+                            d = fa.single_def(pl["l"]) if pl else None
+                            if d and d[2] == "assign" and d[3]["k"] == "ref" and d[3].get("mut") and \
+                                    d[3]["place"]["l"] == l:
+                                fills.append(sorted(_names(ct))[0])
+                    src = "buffer filled by %s" % (sorted(set(fills)) or "?")
+                    if set(fills) - {"read_to_end", "read_to_string"}:
+                        chain.append("<buffer modified by %s>" % sorted(set(fills) - {"read_to_end"}))
+                elif o[0] == "place":
+                    src = repr(o[1])
+                break
+            bad = [c for c in chain if c not in RAW_OK and c not in ("new", "from_elem")]
+            ctx.ob("RAWINPUT", "%s|parse_csv-input" % p, not bad and src is not None, fa.loc(b),
+                   "%s parses %s unchanged" % (p.split("::")[-1], src) if not bad and src else
+                   "%s transforms the bytes before Lexicon::parse_csv sees them (%s): rows are no "
+                   "longer taken byte for byte (e.g. a feature ending in a space, or trailing "
+                   "cells, are altered)" % (p.split("::")[-1], ", ".join(bad) or "source not found"))
+    ctx.floor("RAWINPUT", "callers of Lexicon::parse_csv", n, 5)
